@@ -27,6 +27,9 @@ def main():
     tier = 'quick'
     if '--tier' in sys.argv:
         tier = sys.argv[sys.argv.index('--tier') + 1]
+    check_pid = pid
+    if '--check' in sys.argv:
+        check_pid = sys.argv[sys.argv.index('--check') + 1]
     wt = tempfile.mkdtemp(prefix='seedverify-')
     os.rmdir(wt)
     assert sh('git -C /repo worktree add -q --detach %s HEAD' % wt).returncode == 0
@@ -51,8 +54,8 @@ def main():
         res['demo_changed_exit'] = r.returncode
         res['demo_changed_tail'] = r.stdout.strip().splitlines()[-3:]
         env2 = dict(os.environ, REPO=wt)
-        r = sh('cd %s && /venv/bin/python check.py %s --tier %s' % (VERIF, pid, tier), env=env2)
-        res['check_cmd'] = 'REPO=<worktree with change> /venv/bin/python check.py %s --tier %s' % (pid, tier)
+        r = sh('cd %s && /venv/bin/python check.py %s --tier %s' % (VERIF, check_pid, tier), env=env2)
+        res['check_cmd'] = 'REPO=<worktree with change> /venv/bin/python check.py %s --tier %s' % (check_pid, tier)
         res['check_exit'] = r.returncode
         res['check_lines'] = [l[:400] for l in r.stdout.splitlines() if 'iolation' in l or 'VIOLATION' in l or 'HARNESS' in l][:8]
         res['detected'] = r.returncode == 1
